@@ -145,6 +145,39 @@ func checkDoInitExtensions(c *report.Ctx) {
 		_, isParam := x.(*ssa.Parameter)
 		c.Check("R-WIRE", name+"/register-count-is-number-of-paths", "the number of registrations awaited is the number of extensions about to be launched", isLen && isParam && !an.InLoop(call), an.InstrPos(call), 1, "argument is len(agentPaths): %v; outside the loop: %v", isLen && isParam, !an.InLoop(call))
 	}
+	// the expected number of registrations is announced before the first extension process is started: an
+	// extension that registers while its siblings are still being launched must find the gate armed (an
+	// arrival at a gate whose count is still 0 is refused, the refusal is ignored by the state machine, and
+	// init would then wait forever for a registration that already happened)
+	{
+		setc := an.CallsTo(f, initFlowI+"SetExternalAgentsRegisterCount")
+		isSet := map[ssa.Instruction]bool{}
+		for _, s := range setc {
+			if _, plain := s.(*ssa.Call); plain {
+				isSet[s] = true
+			}
+		}
+		ord := an.NewOrder(f, func(in ssa.Instruction) uint64 {
+			if isSet[in] {
+				return 1
+			}
+			return 0
+		})
+		okB, nx := true, 0
+		for _, ex := range an.CallsTo(f, supExec) {
+			nx++
+			if must, _ := ord.Before(ex); must&1 == 0 {
+				okB = false
+			}
+		}
+		for _, cr := range an.CallsTo(f, regSvcI+"CreateExternalAgent") {
+			nx++
+			if must, _ := ord.Before(cr); must&1 == 0 {
+				okB = false
+			}
+		}
+		c.Check("R-ORDER", name+"/count-armed-before-any-launch", "the number of registrations to wait for is set before any extension is created or started", okB && nx >= 2, fpos(f), nx, "launch/creation sites: %d, all after SetExternalAgentsRegisterCount: %v", nx, okB)
+	}
 	// per iteration: one CreateExternalAgent(path.Base(agentPath)), at most one Exec, channel after nil Exec (C07)
 	creates := an.CallsTo(f, regSvcI+"CreateExternalAgent")
 	execs := an.CallsTo(f, supExec)
